@@ -203,3 +203,40 @@ Proof.
   unfold unknown_refs. apply sorted_strs_perm.
   eapply Permutation_trans; [apply ord_perm | apply Permutation_sym, ord_perm].
 Qed.
+
+(* ---------------------------------------------------------------------------------------- *)
+(* first match in a set iteration: order-free when exactly one element matches *)
+Lemma find_filter {A} (P : A -> bool) l : find P l = hd_error (filter P l).
+Proof. induction l as [|x l IH]; simpl; [reflexivity|]. destruct (P x); [reflexivity | exact IH]. Qed.
+
+Lemma Permutation_filter_P {A} (f : A -> bool) l l' : Permutation l l' -> Permutation (filter f l) (filter f l').
+Proof.
+  induction 1; simpl.
+  - constructor.
+  - destruct (f x); [apply perm_skip|]; assumption.
+  - destruct (f x), (f y); try apply perm_swap; try apply Permutation_refl.
+  - eapply Permutation_trans; eassumption.
+Qed.
+
+Lemma find_unique_perm {A} (P : A -> bool) l l' x :
+  Permutation l l' -> filter P l = [x] -> find P l' = Some x.
+Proof.
+  intros Hp Hf. rewrite find_filter.
+  assert (H : Permutation [x] (filter P l')) by (rewrite <- Hf; apply Permutation_filter_P; exact Hp).
+  apply Permutation_length_1_inv in H. rewrite H. reflexivity.
+Qed.
+
+Theorem corr_from_dict_order_free O O' d : corr_from_dict O d = corr_from_dict O' d.
+Proof.
+  unfold corr_from_dict.
+  destruct (filter (fun op => haskey op d) corr_ops) as [|x [|y r]] eqn:E; try reflexivity.
+  destruct (norm _) eqn:En.
+  - rewrite (find_unique_perm _ corr_ops (ord O corr_ops) x), (find_unique_perm _ corr_ops (ord O' corr_ops) x);
+      try exact E; try (apply Permutation_sym, ord_perm). reflexivity.
+  - now rewrite (sorted_join_order_free O O').
+Qed.
+
+Definition c_gte : str := [103;116;101].
+Definition c_lte : str := [108;116;101].
+Theorem corr_from_dict_weak_refuted : exists O O' d, corr_from_dict_weak O d <> corr_from_dict_weak O' d.
+Proof. exists ord_id, ord_rev, [(c_gte, VInt [50]); (c_lte, VNull)]. vm_compute. discriminate. Qed.
